@@ -30,10 +30,25 @@ PROP = "C13"
 # features of the hidden model that keep the structure regular (every element name used consistently)
 FEATURES = ["none", "no-namespace", "unqualified-elements", "qualified-attributes", "occurs-0-unbounded", "occurs-1-unbounded", "occurs-2-3", "choice", "choice-repeating",
             "sequence-repeating", "nested-anonymous", "attr-required", "attr-default", "nillable", "mixed", "typed-values", "import", "simple-content", "recursion",
-            "enum-string", "list-type", "binary-values", "optional-run", "foreign-child-local-grandchild", "foreign-child-local-grandchild-no-namespace"]
+            "enum-string", "list-type", "binary-values", "optional-run", "foreign-child-local-grandchild", "foreign-child-local-grandchild-no-namespace", "child-named-like-root"]
 # canonical spellings only (the property: "values are spelled canonically")
 CANON = {"boolean": ["true", "false"], "decimal": ["1.5", "-0.25", "3"], "float": ["1.5", "-2.5"], "dateTime": ["2020-01-02T03:04:05", "1999-12-31T23:59:59.500Z"],
          "gYear": ["2001", "1999Z"], "hexBinary": ["0AFF", "00"], "NMTOKENS": ["a b", "c"], "QName": ["xs:string"]}
+
+
+def empty_and_structured_occurrence(docs) -> bool:
+    """True if some element name occurs once completely empty (no attributes, children or text) and once with attributes or children."""
+    from lxml import etree
+    seen: dict = {}
+    for d in docs:
+        for e in etree.fromstring(d.encode("utf-8")).iter():
+            if not isinstance(e.tag, str):
+                continue
+            attrs = [k for k in e.attrib if not k.startswith("{http://www.w3.org/2001/XMLSchema-instance}")]
+            structured = bool(attrs or len(e))
+            empty = not e.attrib and not len(e) and not (e.text or "").strip()
+            seen.setdefault(e.tag, set()).update({"structured"} if structured else set(), {"empty"} if empty else set())
+    return any({"structured", "empty"} <= v for v in seen.values())
 
 
 def hidden_schema(ch: Chooser, max_features: int) -> GX.Schema:
@@ -109,6 +124,10 @@ def h_xml(ch: Chooser, vec: list, maxfeat: int, nsamples: int):
         try:
             g.import_all()
             root = g.find_class("Root")
+            if root is None or "child-named-like-root" in s.features:
+                # two classes compete for the name Root: the root class is the module-level class whose element name is `root`
+                named = [c for c in g.classes() if "." not in c.__qualname__ and getattr(getattr(c, "Meta", None), "name", c.__name__) == "root"]
+                root = named[0] if len(named) == 1 else root
             if root is None:
                 raise RuntimeError(f"no Root class in {sorted(g.files)}")
             ctx = XmlContext()
@@ -121,6 +140,8 @@ def h_xml(ch: Chooser, vec: list, maxfeat: int, nsamples: int):
                 p = call(XmlParser(context=ctx, config=ParserConfig(fail_on_unknown_properties=True, fail_on_converter_warnings=True)).from_string, d, root)
             c = {**case, "sample": d, "generated": next(v for k, v in g.files.items() if not k.endswith("__init__.py"))[:3000]}
             if p[0] == "exc":
+                if "missing" in str(p[1]) and "required keyword-only argument" in str(p[1]) and empty_and_structured_occurrence(docs):
+                    return dict(ok=False, case=c, bucket="KF/element-empty-in-one-occurrence-structured-in-another-keeps-required-members", detail=f"{p[1]!r}\n{d}")
                 return dict(ok=False, case=c, bucket=f"xml/sample-not-accepted/{feats}/{type(p[1]).__name__}", detail=f"{p[1]!r}\n{d}")
             r = call(XmlSerializer(context=ctx, config=SerializerConfig(xml_declaration=False)).render, p[1])
             if r[0] == "exc":
@@ -233,8 +254,12 @@ JTYPES = {
     "bool": [True, False],
     "float": [1.5, -0.25],
     "date": ["2020-01-02", "1999-12-31"],
+    # one key that consistently holds a string or a number / a string or a boolean (falsy members included): the field is a union
+    # and every value keeps its own type
+    "str-or-int": ["x", 0, 7],
+    "str-or-bool": ["maybe", False, True],
 }
-JKINDS = ["int", "str", "bool", "float", "date", "array-int", "array-str", "object", "array-objects"]
+JKINDS = ["int", "str", "bool", "float", "date", "array-int", "array-str", "object", "array-objects", "str-or-int", "str-or-bool", "array-str-or-int"]
 
 
 def gen_jschema(ch: Chooser, depth: int = 0) -> dict:
@@ -279,6 +304,8 @@ def json_norm(x):
         return {k: json_norm(v) for k, v in sorted(x.items()) if v is not None and v != []}
     if isinstance(x, list):
         return [json_norm(v) for v in x]
+    if isinstance(x, bool):
+        return ("bool", x)     # True == 1 in Python, not in JSON
     return x
 
 
@@ -384,7 +411,7 @@ def run(tier: str, seed: int) -> int:
         rule=("XML passes " + "; ".join(f"{n} hidden regular models (G-xsd base + <= {mf} of {len(FEATURES) - 1} structure features, canonical value spellings) x every set of 1-{ns} instance documents with <= {dv} non-minimal answers in total"
                                         for n, (mf, ns, dv) in zip(nmodels, passes)) +
               " (occurrence counts, choice branches, optional attributes, values), each validated by libxml2 against the hidden schema, which is then discarded; "
-              f"JSON: {len(jvecs)} hidden key->kind models (<= 2 levels, <= 2 keys per object, each key of one kind among 9: 5 scalar types, arrays of int / str, object, array of objects; <= {jm} "
+              f"JSON: {len(jvecs)} hidden key->kind models (<= 2 levels, <= 2 keys per object, each key of one kind among 12: 5 scalar types, string-or-int, string-or-bool, arrays of int / str / string-or-int, object, array of objects; <= {jm} "
               f"non-default answers) x every set of 1-{jn} distinct documents of it (keys present / absent / null, arrays of 0-2 items, values from the type alphabet incl. '' and 0) with <= {jd} "
               "non-default answers in total. Classes are generated from the samples alone; every sample must parse strictly (no unknown property, no converter warning) and "
               "re-serialize to the same infoset / JSON value."),
